@@ -87,6 +87,7 @@ def create_stub_files(
     out_path: Path,
 ) -> None:
     naming_convention = stubs_generator.naming_convention
+    written_stub_files: set[Path] = set()
     # A "package module" is a module which is created though the reexported classes and functions in the __init__.py
     for module_dir, module_name, module_text, is_package_module in stubs_data:
         if is_package_module:
@@ -109,12 +110,19 @@ def create_stub_files(
 
         with file_path.open("w", encoding="utf-8") as f:
             f.write(module_text)
+        written_stub_files.add(file_path.resolve())
 
     created_module_paths: set[str] = set()
     classes_outside_package = list(stubs_generator.classes_outside_package)
     classes_outside_package.sort()
     for class_ in classes_outside_package:
-        created_module_paths = _create_outside_package_class(class_, out_path, naming_convention, created_module_paths)
+        created_module_paths = _create_outside_package_class(
+            class_,
+            out_path,
+            naming_convention,
+            created_module_paths,
+            written_stub_files,
+        )
 
 
 def _create_outside_package_class(
@@ -122,6 +130,7 @@ def _create_outside_package_class(
     out_path: Path,
     naming_convention: NamingConvention,
     created_module_paths: set[str],
+    written_stub_files: set[Path] | None = None,
 ) -> set[str]:
     path_parts = class_path.split(".")
     class_name = path_parts.pop(-1)
@@ -137,6 +146,10 @@ def _create_outside_package_class(
     module_dir.mkdir(parents=True, exist_ok=True)
 
     file_path = Path(module_dir / f"{module_name}.sdsstub")
+    if written_stub_files and file_path.resolve() in written_stub_files:
+        # The "class" is a name of a module of the package itself that is no class (a NewType, an alias of a class):
+        # the stub of that module was written in this run and must not be replaced
+        first_creation = False
     if Path.exists(file_path) and not first_creation:
         with file_path.open("a", encoding="utf-8") as f:
             f.write(_create_outside_package_class_text(class_name, naming_convention))
